@@ -406,10 +406,10 @@ def replay_bin(groups, native_profile):
     args = ['build', '--offline', '--bin', 'replay', '--features', feats]
     if native_profile == 'release':
         args.append('--release')
-    rc, out = cargo(args, 'replay')
+    rc, out = cargo(args, 'replay-' + RUN_TAG)
     if rc != 0:
         raise Inconclusive('cannot build the native replay binary:\n' + out[-2000:])
-    b = os.path.join(BUILD, 'replay', 'release' if native_profile == 'release' else 'debug', 'replay')
+    b = os.path.join(BUILD, 'replay-' + RUN_TAG, 'release' if native_profile == 'release' else 'debug', 'replay')
     # keep a private copy per feature set: cargo overwrites the same path
     dst = b + '-' + hashlib.sha1(feats.encode()).hexdigest()[:8]
     shutil.copy2(b, dst)
